@@ -10,6 +10,19 @@ Facts:
     that holds the rollback loop (source path only: no probe; a shape that is
     not recognised raises).
 
+  * bitcoind_reorg_disconnects_own_hash: in chain/bitcoind_client.go reorg, the
+    walk-back loop (`for previousBlock != currentHeader.PrevBlock`) sets the
+    hash of the next block to disconnect to that block's own hash (the parent
+    of the block just disconnected: `*prevBlock` / `currentHeader.BlockHash()`),
+    not to ITS parent (`currentHeader.PrevBlock`).  Source path: an anchored
+    regular expression over the loop body; any other right-hand side is
+    refused and the PROBE decides: harness/cmd/c15bd runs the REAL
+    BitcoindConn (RPC polling) + BitcoindClient against a loopback stub node
+    through its fixed witness reorganisations (depth 1, 2, 3, 4, back to back);
+    true iff every BlockDisconnected names the block it detaches, false iff
+    every disconnect after the first of a reorganisation names the block one
+    below (what the model's `false` branch emits), anything else fails.
+
 The model Sync/Sync.v takes both as parameters; the theorems of
 Properties/C15.v take `disconnect_records_parent_hash = true` (and
 `0 < max_reorg_depth`) as premises discharged by eq_refl.
@@ -123,8 +136,118 @@ def probe_depth_fact(resp):
     return int(resp["max_reorg_depth"])
 
 
+def strip_comments(src):
+    src = re.sub(r"/\*.*?\*/", " ", src, flags=re.S)
+    return "\n".join(re.sub(r"//.*$", "", l) for l in src.split("\n"))
+
+
+def bitcoind_source_fact(repo):
+    """(value, why) from the shape of the walk-back loop of BitcoindClient.reorg"""
+    path = os.path.join(repo, "chain", "bitcoind_client.go")
+    src = strip_comments(open(path).read())
+    m = re.search(r"func \(c \*BitcoindClient\) reorg\(", src)
+    if not m:
+        raise ExtractError("chain/bitcoind_client.go: func (c *BitcoindClient) reorg not found")
+    body = src[m.end():]
+    nxt = re.search(r"^func ", body, flags=re.M)
+    body = body[:nxt.start()] if nxt else body
+    lm = re.search(r"for\s+previousBlock\s*!=\s*currentHeader\.PrevBlock\s*\{", body)
+    if not lm:
+        raise ExtractError("reorg: walk-back loop `for previousBlock != currentHeader.PrevBlock` not found")
+    i, depth = lm.end(), 1
+    j = i
+    while j < len(body) and depth:
+        depth += {"{": 1, "}": -1}.get(body[j], 0)
+        j += 1
+    loop = body[i:j]
+    if not re.search(r"prevBlock\s*:=\s*&currentHeader\.PrevBlock\s*\n\s*currentHeader\s*,\s*err\s*=\s*c\.GetBlockHeader\(prevBlock\)", loop):
+        raise ExtractError("reorg: `prevBlock := &currentHeader.PrevBlock; currentHeader, err = c.GetBlockHeader(prevBlock)` not found in the loop")
+    asg = re.findall(r"currentBlock\.Hash\s*=\s*([^\n]+)", loop)
+    if len(asg) != 1:
+        raise ExtractError("reorg: %d assignments to currentBlock.Hash in the walk-back loop" % len(asg))
+    rhs = asg[0].strip()
+    if rhs in ("*prevBlock", "currentHeader.BlockHash()"):
+        return True, "reorg walk-back loop: currentBlock.Hash = %s (the block's own hash)" % rhs
+    if rhs == "currentHeader.PrevBlock":
+        return False, "reorg walk-back loop: currentBlock.Hash = currentHeader.PrevBlock (the PARENT of the block to disconnect)"
+    raise ExtractError("reorg: right-hand side of currentBlock.Hash not recognised: %s" % rhs)
+
+
+def _build_c15bd(repo):
+    with vlib.Lock("go"):
+        os.makedirs(os.path.join(vlib.WORK, "bin"), exist_ok=True)
+        modflag, tag = [], ""
+        if repo == "/repo":
+            shutil.copyfile(os.path.join(repo, "go.sum"), os.path.join(vlib.HARNESS, "go.sum"))
+        else:
+            tag = "_" + hashlib.sha1(repo.encode()).hexdigest()[:8]
+            alt = os.path.join(vlib.WORK, "probe_c15bd%s.mod" % tag)
+            txt = open(os.path.join(vlib.HARNESS, "go.mod")).read().replace("=> /repo", "=> " + repo)
+            open(alt, "w").write(txt)
+            shutil.copyfile(os.path.join(repo, "go.sum"), alt[:-4] + ".sum")
+            modflag = ["-modfile=" + alt]
+        exe = os.path.join(vlib.WORK, "bin", "c15bd" + tag)
+        p = subprocess.run(["go", "build"] + modflag + ["-tags", "verif", "-o", exe, "./cmd/c15bd"],
+                           cwd=vlib.HARNESS, env=vlib.GOENV, stdout=subprocess.PIPE, stderr=subprocess.PIPE,
+                           text=True, timeout=900)
+        if p.returncode != 0:
+            raise ExtractError("probe: harness/cmd/c15bd does not build against %s: %s" % (repo, (p.stdout + p.stderr)[-1500:]))
+    return exe
+
+
+def disconnect_shape(case):
+    """per reorganisation of a c15bd case: (depth, 'own' | 'below' | 'other')"""
+    prev = {b["id"]: b["prev"] for b in case["blocks"]}
+    out = []
+    for st in case["steps"]:
+        ds = [n for n in (st["ntfns"] or []) if n["k"] == "disc"]
+        if len(ds) < 2:
+            continue
+        want, kinds = ds[0]["b"], set()
+        for n in ds[1:]:
+            want = prev.get(want, -1)
+            kinds.add("own" if n["b"] == want else "below" if n["b"] == prev.get(want, -1) else "other")
+        out.append((len(ds), kinds.pop() if len(kinds) == 1 else "other"))
+    return out
+
+
+def bitcoind_probe_fact(repo):
+    exe = _build_c15bd(repo)
+    p = subprocess.run([exe, "-n", "0"], cwd=vlib.WORK, stdout=subprocess.PIPE, stderr=subprocess.PIPE, text=True, timeout=300)
+    if p.returncode != 0:
+        raise ExtractError("probe: c15bd failed: %s" % p.stderr[-1500:])
+    shapes = [s for line in p.stdout.splitlines() if line.strip() for s in disconnect_shape(json.loads(line)["bd"])]
+    if len(shapes) < 5:
+        raise ExtractError("probe: only %d reorganisations deeper than one block were notified in the witness cases" % len(shapes))
+    kinds = set(k for _, k in shapes)
+    if kinds == {"own"}:
+        return True, "probe: in all %d witness reorganisations deeper than one block every BlockDisconnected names the block it detaches" % len(shapes)
+    if kinds == {"below"}:
+        return False, "probe: in all %d witness reorganisations every BlockDisconnected after the first names the block one below" % len(shapes)
+    raise ExtractError("probe: BlockDisconnected hashes of the witness reorganisations fit neither instance of the model: %s" % shapes)
+
+
+def bitcoind_fact(repo):
+    """(value, why, path)"""
+    try:
+        v, why = bitcoind_source_fact(repo)
+        return v, why, "source"
+    except (ExtractError, OSError) as e1:
+        try:
+            v, why = bitcoind_probe_fact(repo)
+            return v, why + " (source shape not recognised: %s)" % sanitize(str(e1))[:300], "probe"
+        except (ExtractError, OSError, ValueError, KeyError, subprocess.SubprocessError) as e2:
+            raise ExtractError("bitcoind_reorg_disconnects_own_hash: source shape not recognised (%s) AND probing the built code failed (%s)" % (e1, e2))
+
+
 def facts(repo):
     """returns dict(hash, depth, why, source_line)"""
+    out = _facts(repo)
+    out["bd"], out["bd_why"], out["bd_path"] = bitcoind_fact(repo)
+    return out
+
+
+def _facts(repo):
     src_err = None
     try:
         s = source_facts(repo)
@@ -184,12 +307,16 @@ Definition max_reorg_depth : Z := %d.
 (* %s *)
 Definition recovery_before_rollback : bool := %s.
 
+(* chain/bitcoind_client.go [%s]: %s *)
+Definition bitcoind_reorg_disconnects_own_hash : bool := %s.
+
 (* informational (not used by the model):
    known-block test of disconnectBlock : %s
    TxStore.Rollback in disconnectBlock  : %s
    TxStore.Rollback in syncWithChain    : %s *)
 """ % (sanitize(f["source_line"]), sanitize(f["why"]), "true" if f["hash"] else "false", f["depth"],
        sanitize(f["rec_why"]), "true" if f["rec_first"] else "false",
+       f["bd_path"], sanitize(f["bd_why"]), "true" if f["bd"] else "false",
        sanitize(info.get("known_block_test")), sanitize(info.get("rollback_arg")), sanitize(info.get("startup_rollback")))
 
 
